@@ -129,6 +129,60 @@ def run(ctx):
             lib.precedes(ctx, '5h destination-version-settled-before-open', mg, sorted(set(settled) | set(oc_versioned)), plain_oc,
                          'before the destination is opened (which would create it with CURRENT_VERSION) its metadata was written with the source version, or its existing version was compared with it')
     if mg:
+        # commits into the destination are only queued; a failure of its background workers is stored in THAT handle and reported
+        # by the next commit on it. migrate lets go of destination handles (to copy files, to move files, at the end): each time it
+        # has to ask the handle first - Db::close returns the stored error - or a failed batch is silently missing and, in place,
+        # the source column is replaced by an incomplete one (F58)
+        dest_locals = set(mg.term(x)['d'][0] for x in oc if len(mg.term(x)['d']) == 1)
+        # locals the destination handle is moved through (`dest = open(..)`: the call result is moved into the variable)
+        for _ in range(3):
+            for bi in mg.normal_blocks():
+                for st_ in mg.blocks[bi]['s']:
+                    if st_['k'] == 'assign' and st_['r']['k'] == 'use' and op_place(st_['r']['a'][0]) is not None and len(op_place(st_['r']['a'][0])) == 1 \
+                       and op_place(st_['r']['a'][0])[0] in dest_locals and len(st_['p']) == 1:
+                        dest_locals.add(st_['p'][0])
+        plain_drops = [x for x, t in mg.calls() if x in mg.normal_blocks() and call_matches(t, ['std::mem::drop']) and t['a'] and op_local(t['a'][0]) is not None
+                       and lib.root_local(mg, t['a'][0]) in dest_locals | set(l for l in dest_locals)]
+        # a drop(x) where x was moved out of a destination variable
+        for x, t in mg.calls():
+            if x in mg.normal_blocks() and call_matches(t, ['std::mem::drop']) and t['a'] and op_local(t['a'][0]) is not None and x not in plain_drops:
+                sl = backward_slice(mg, [op_place(t['a'][0])])
+                if any(y in oc for y, _ in sl.call_sites):
+                    plain_drops.append(x)
+        closes = [x for x in mg.call_sites('db::Db::close') if lib.result_err_targets(mg, x) or mg.term(x).get('d') == [0]]      # `?`, or returned as the result of migrate
+        ctx.ob('5j destination-handles-are-closed-not-dropped', 'K4-confinement', mg.path,
+               'migrate never lets go of a destination handle with drop(): it uses Db::close and propagates the background error the handle may hold',
+               not plain_drops and bool(closes), 'destination handle dropped at %s' % [mg.loc(x) for x in plain_drops] if plain_drops else 'no Db::close whose result is propagated')
+        if closes:
+            lib.must_pass(ctx, '5k migrate-ends-with-a-checked-close', mg, closes, 'every successful return of migrate has closed the destination and looked at its background error')
+    if mg:
+        # hashed keys are committed as they are and the files of unselected columns are copied as they are: an EXISTING destination
+        # must have the salt of the source (setting to.salt only matters when the destination is created); the salt stored in the opened
+        # destination is compared with the source salt and a mismatch is an error (F57)
+        cands = [mg] + [x for x in fam if x is not mg] + [F.body(n) for n in ('db::Db::open_or_create_in_version',) if F.body(n) is not None]
+        found = None
+        for fb in cands:
+            for bi, t in fb.calls():
+                if bi in fb.normal_blocks() and call_matches(t, ['re:PartialEq.*>::(eq|ne)$']) and len(t['a']) >= 2:
+                    sls = [backward_slice(fb, [op_place(a)]) for a in t['a'][:2] if op_place(a) is not None]
+                    if len(sls) == 2 and all('.Options.salt' in sl.fields for sl in sls) and any('.DbInner.options' in sl.fields or '.Metadata.salt' in sl.fields for sl in sls):
+                        found = (fb, bi)
+            for bi in fb.normal_blocks():
+                for st_ in fb.blocks[bi]['s']:
+                    if st_['k'] == 'assign' and st_['r']['k'] == 'bin' and st_['r']['op'] in ('Eq', 'Ne'):
+                        sls = [backward_slice(fb, [op_place(a)]) for a in st_['r']['a'] if op_place(a) is not None]
+                        if len(sls) == 2 and all(('.Options.salt' in sl.fields or '.Metadata.salt' in sl.fields) for sl in sls) and any('.DbInner.options' in sl.fields or '.Metadata.salt' in sl.fields for sl in sls):
+                            found = found or (fb, bi)
+        guarded = False
+        if found:
+            fb, bi = found
+            errs = core.error_exit_blocks(fb)
+            sw = [x for x in fb.reaches(bi) if fb.term(x)['k'] == 'switch']
+            guarded = any(e in fb.reaches(bi) for e in errs)
+        ctx.ob('5i destination-salt-is-the-source-salt', 'K3-guard', mg.path,
+               'the salt stored in the opened destination is compared with the salt of the source, and a mismatch is reported as an error',
+               bool(found) and guarded, 'no comparison of the destination\'s stored salt with the source salt' if not found else 'the comparison does not lead to an error return')
+    if mg:
         ins = [bi for bi, t in mg.calls() if call_matches(t, ['re:BTreeSet.*::insert$', 're:BTreeSet.*Extend<.*>>::extend$', 're:BTreeSet.*::extend$', 're:BTreeSet.*::append$']) and bi in mg.normal_blocks()]
         # the automatic selection: an insert that depends on a comparison of source and destination column options
         need = {'preimage', 'uniform', 'ref_counted', 'compression', 'btree_index', 'multitree'}
